@@ -299,7 +299,7 @@ func sweepSpecs(w *World, sw *Sweep, specs *Specs) []*FuncSpec {
 				continue // explicit contract wins
 			}
 		}
-		out = append(out, &FuncSpec{Key: key, Loops: map[int]*LoopSpec{}, Props: sw.Props, NoPanic: sw.NoPanic, InferAll: sw.Infer, File: sw.File, Implicit: true, NoNil: sw.NoNil})
+		out = append(out, &FuncSpec{Key: key, Loops: map[int]*LoopSpec{}, Props: sw.Props, NoPanic: sw.NoPanic, InferAll: sw.Infer, File: sw.File, Implicit: true, NoNil: sw.NoNil, Lockset: sw.Lockset})
 	}
 	sort.Slice(out, func(i, j int) bool { return out[i].Key < out[j].Key })
 	return out
